@@ -230,4 +230,11 @@ theorem C06_copy_atomic (ω : Oracle) (h : H) (t : Spec.Item) (x : Ref) (hd : De
   · unfold H.liveCells; rw [hcells, liveCells_append_nones]
   · rw [liveBlocks_eq, liveBlocks_eq, hcells, liveBlocks_append_nones]
 
+/-- **`cbor_serialize_alloc` makes one request** (for exactly the computed size) and, when it is refused, returns 0 with a NULL
+buffer: the model has nothing else it could have allocated or changed — for every tree, valid or not -/
+theorem C06_serialize_alloc_atomic (okAlloc : Nat → Bool) (t : Spec.Item) (h : okAlloc (Model.size t).toNat = false) :
+    Model.serializeAlloc okAlloc t = none := by
+  unfold Model.serializeAlloc
+  simp [h]
+
 end Props.C06
